@@ -213,6 +213,41 @@ def c01(ctx):
     ctx.exhaustive = True
 
 
+CORRUPTIONS = {      # one recorded field changed: the trace specification must then reject the trace (the binding is real)
+    "StreamsTrace": ('"out":{"c":"some"', '"out":{"c":"none"'),
+    "DevicesTrace": ('"hasState":true', '"hasState":false'),
+    "TimeIntTrace": ('"unit_ok":true', '"unit_ok":false'),
+    "ProfileTrace": ('"hasAcc":true', '"hasAcc":false'),
+    "ProfileNumTrace": ('"piece":2', '"piece":3'),
+    "RefThreadsTrace": ('"k":"inc","new":', '"k":"inc","new":9'),
+}
+
+
+def selftest_trace(ctx, module, tp, name, constants, timeout):
+    """corrupt one field of an accepted trace, and drop one event of it: TLC must reject both"""
+    lines = open(tp).read().splitlines()
+    old, new = CORRUPTIONS[module]
+    idx = [i for i, l in enumerate(lines) if old in l.replace(" ", "")]
+    if not idx:
+        ctx.notes.append("self-test of %s skipped: no line to corrupt" % module)
+        return
+    k = idx[len(idx) // 2]
+    bad = list(lines)
+    bad[k] = bad[k].replace(" ", "").replace(old, new, 1)
+    variants = [("corrupt", bad)]
+    if module == "RefThreadsTrace":
+        variants.append(("dropped", lines[:k] + lines[k + 1:]))
+    for label, content in variants:
+        bp = os.path.join(ctx.out, "%s.%s.ndjson" % (name, label))
+        open(bp, "w").write("\n".join(content) + "\n")
+        before = (ctx.states, ctx.transitions)
+        info = vlib.validate_trace(ctx, module, bp, name + "_" + label, constants=constants, timeout=timeout)
+        ctx.states, ctx.transitions = before           # self-test runs do not count as coverage
+        if info["accepted"]:
+            raise ToolError("self-test failed: %s accepted a trace with one corrupted field / dropped event (%s): the trace specification does not constrain it" % (module, bp))
+    ctx.notes.append("self-test: %s rejects the recorded trace when one field is corrupted (line %d)" % (module, k + 1))
+
+
 def trace_check(ctx, module, bindir, binname, rec_args, name, what, replay_kind, timeout=900, constants=None):
     """record a trace from the real code and let TLC validate it against spec/<module>.tla"""
     tp = os.path.join(ctx.out, name + ".trace.ndjson")
@@ -222,6 +257,8 @@ def trace_check(ctx, module, bindir, binname, rec_args, name, what, replay_kind,
     if info["accepted"]:
         ctx.traces += 1
         ctx.extra.setdefault("traces", []).append({"module": module, "events": info["events"], "accepted": True})
+        if module in CORRUPTIONS and not ctx.pid.endswith("_replay"):
+            selftest_trace(ctx, module, tp, name, constants, timeout)
         return True
     unmatched = [m for m in info["msgs"] if "first unmatched event" in m]
     if not unmatched:
